@@ -141,6 +141,12 @@ def run(tier, seed, t0):
     # the layers named in this property's mechanism: hash-to-range arithmetic (C16), exponentiation in GT (C13 L4), the pairing (C12)
     import c12, c13_l4
     jobs = [c13_l4.ob_fp12_pow] + jobs + [c16.ob_getu64, c16.ob_from_hash] + c12.jobs_for(tier)
+    # the group operations signing and verification are evaluated with: S = [l]ds in G1, P = [h1]P2 + Ppub-s in G2 (C13 obligations)
+    import c13
+    jobs += [c13_l4.ob_twist_mul, c13_l4.ob_point_mul,
+             lambda: c13.g2_ob("twist_point_add_full", 2, c13.chk_add, "point_add_full"), lambda: c13.g2_ob("TwistPoint::point_double", 1, c13.chk_dbl, "point_double"),
+             lambda: c13.g1_ob("point_add", 2, c13.chk_add, "point_add"), lambda: c13.g1_ob("point_double", 1, c13.chk_dbl, "point_double"),
+             lambda: c13.g1_ob("is_on_curve", 1, c13.chk_on_curve, "is_on_curve")]
     res = run_parallel(jobs, nproc=14)
     return finish("C09", tier, seed, "model_checking", res, t0,
                   assumptions=["pairing and group/field layers uninterpreted (C12, C13); H2 framing decided here per message length (incl. > 255 bytes), H1 framing and hash-to-range arithmetic in C16", "equality with the Annex A value: replay reference only",
